@@ -831,6 +831,18 @@ def units(tier: str, verif_seed: int) -> list:
     n_x = 16 if tier == "quick" else 80
     for i in range(n_x):
         out.insert(i * 3, {"kind": "xval", "start": i * 4, "count": 4 if tier != "quick" else 1, "vseed": verif_seed})
+    if tier != "quick":
+        # the thorough plan is longer than its wall-clock cap on a busy machine: interleave the kinds (proportionally) so that
+        # whatever part completes contains pair sweeps, single sweeps, random runs and cross-validation alike
+        groups: dict = {}
+        for u in out:
+            groups.setdefault((u["kind"], bool(u.get("pairs"))), []).append(u)
+        keyed = []
+        for g in groups.values():
+            for i, u in enumerate(g):
+                keyed.append(((i + 0.5) / len(g), u))
+        keyed.sort(key=lambda x: x[0])
+        out = [u for _, u in keyed]
     return out
 
 
